@@ -8,22 +8,35 @@ Import ListNotations.
 Open Scope Z_scope.
 
 (* ---------- syntactic functions ---------- *)
-Lemma tr1_unfold p :
-  tr1 p = match p with
+Lemma knext_unfold k p :
+  knext k p = match p with
+              | PTuple _ es => k + Z.of_nat (length es)
+              | PWhile _ b | PFor _ _ b => klist k b
+              | _ => k
+              end.
+Proof.
+  assert (G : forall l k0, (fix go (k : Z) (l : list pstmt) : Z := match l with [] => k | x :: r => go (knext k x) r end) k0 l = klist k0 l).
+  { intros l k0. reflexivity. }
+  destruct p; try reflexivity; cbn; apply G.
+Qed.
+
+Lemma tr1_unfold ret k p :
+  tr1 ret k p = match p with
           | PAssign x e => [NAssign x (XE (a_id e))]
           | PAug x op e _ => [NAssign x (XAug x op (a_id e))]
-          | PTuple _ _ => []
-          | PIf c b el e => [NIf ((a_id c, trn b) :: trnb el) (trn e)]
-          | PWhile c b => [NWhile (a_id c) (trn b)]
-          | PFor x c b => [NFor x (a_id c) (trn b)]
+          | PTuple xs es => tuple_tmps es k ++ tup_asgs xs k
+          | PIf c b el e => [NIf ((a_id c, trn ret k b) :: trnb ret k el) (trn ret k e)]
+          | PWhile c b => [NWhile (a_id c) (trn false k b)]
+          | PFor x c b => [NFor x (a_id c) (trn false k b)]
           | PBreak => [NBreak]
+          | PContinue => if ret then [NReturn] else [NContinue]
           | PWrite e => [NWrite (a_id e)]
           | PSleep e => [NSleep (a_id e)]
           | PExprS e => if closed_const e then [] else [NExprS (a_id e)]
           end.
 Proof.
-  assert (G : forall l, (fix go (l : list pstmt) : list cnode := match l with [] => [] | x :: r => tr1 x ++ go r end) l = trn l).
-  { intro l. reflexivity. }
+  assert (G : forall rt l k0, (fix go (rt : bool) (k : Z) (l : list pstmt) : list cnode := match l with [] => [] | x :: r => tr1 rt k x ++ go rt (knext k x) r end) rt k0 l = trn rt k0 l).
+  { intros rt l k0. reflexivity. }
   destruct p; try reflexivity; cbn; rewrite ?G; try reflexivity.
   all: f_equal; f_equal; f_equal.
   all: induction elifs as [|[c' b] r IH]; [reflexivity|]; cbn; rewrite G; f_equal; exact IH.
@@ -59,7 +72,7 @@ Lemma anns_of_unfold p :
               | PIf c b el e => c :: anns_in b ++ anns_inb el ++ anns_in e
               | PWhile c b => c :: anns_in b
               | PFor _ c b => c :: anns_in b
-              | PBreak => []
+              | PBreak | PContinue => []
               end.
 Proof.
   assert (G : forall l, (fix go (l : list pstmt) : list ann := match l with [] => [] | x :: r => anns_of x ++ go r end) l = anns_in l).
@@ -174,7 +187,8 @@ Section Mirrors.
           match pexec sem augsem f (pset x (VI i) rho0) body with
           | None => None
           | Some (rho1, e1, OBreak) => Some (rho1, e1)
-          | Some (rho1, e1, ONormal) =>
+          | Some (rho1, e1, OReturn) => None
+          | Some (rho1, e1, _) =>
               match piter k' (i + 1) rho1 with
               | None => None | Some (rho2, e2) => Some (rho2, e1 ++ e2) end
           end
@@ -192,7 +206,7 @@ Section Mirrors.
     Variable x : ident.
     Variable cnt : Z.
     Variable body : list cnode.
-    Fixpoint citer (k : nat) (s0 : cstore) : option (cstore * list ev) :=
+    Fixpoint citer (k : nat) (s0 : cstore) : option (cstore * list ev * bool) :=
       match k with
       | O => None
       | S k' =>
@@ -204,20 +218,21 @@ Section Mirrors.
                   if i <? n then
                     match cblock f s0 body with
                     | None => None
-                    | Some (s1, e1, OBreak) => Some (s1, e1)
-                    | Some (s1, e1, ONormal) =>
+                    | Some (s1, e1, OBreak) => Some (s1, e1, false)
+                    | Some (s1, e1, OReturn) => Some (s1, e1, true)
+                    | Some (s1, e1, _) =>
                         match clook s1 x with
                         | Some (VI j) =>
                             match cupd x (VI (j + 1)) s1 with
                             | None => None
                             | Some s2 =>
                                 match citer k' s2 with
-                                | None => None | Some (s3, e3) => Some (s3, e1 ++ e3) end
+                                | None => None | Some (s3, e3, r) => Some (s3, e1 ++ e3, r) end
                             end
                         | _ => None
                         end
                     end
-                  else Some (s0, [])
+                  else Some (s0, [], false)
               end
           | _, _ => None
           end
@@ -230,21 +245,21 @@ Section Mirrors.
   Definition pcont (f : nat) (rest : list pstmt) (r : option (penv * list ev * outcome)) :=
     match r with
     | None => None
-    | Some (rho1, e1, OBreak) => Some (rho1, e1, OBreak)
     | Some (rho1, e1, ONormal) =>
         match pexec f rho1 rest with
         | None => None
         | Some (rho2, e2, o) => Some (rho2, e1 ++ e2, o)
         end
+    | Some (rho1, e1, o) => Some (rho1, e1, o)
     end.
 
   Definition ccont (f : nat) (rest : list cnode) (r : option (cstore * list ev * outcome)) :=
     match r with
     | None => None
-    | Some (s1, e1, OBreak) => Some (s1, e1, OBreak)
     | Some (s1, e1, ONormal) =>
         match cexec f s1 rest with
         | None => None | Some (s2, e2, o) => Some (s2, e1 ++ e2, o) end
+    | Some (s1, e1, o) => Some (s1, e1, o)
     end.
 
   (* --- Python side equations --- *)
@@ -273,6 +288,8 @@ Section Mirrors.
   Proof. reflexivity. Qed.
 
   Lemma pexec_break f rho rest : pexec (S f) rho (PBreak :: rest) = Some (rho, [], OBreak).
+  Proof. reflexivity. Qed.
+  Lemma pexec_continue f rho rest : pexec (S f) rho (PContinue :: rest) = Some (rho, [], OContinue).
   Proof. reflexivity. Qed.
 
   Lemma pexec_write f rho e rest :
@@ -310,7 +327,8 @@ Section Mirrors.
           | Some (rho1, e1, OBreak) =>
               match pexec f rho1 rest with
               | None => None | Some (rho2, e2, o) => Some (rho2, e1 ++ e2, o) end
-          | Some (rho1, e1, ONormal) =>
+          | Some (rho1, e1, OReturn) => None
+          | Some (rho1, e1, _) =>
               match pexec f rho1 (PWhile c body :: rest) with
               | None => None | Some (rho2, e2, o) => Some (rho2, e1 ++ e2, o) end
           end
@@ -353,6 +371,12 @@ Section Mirrors.
                   | Some v => Some ((x, (t, conv t v)) :: sg, [], ONormal) | None => None end).
   Proof. reflexivity. Qed.
 
+  Lemma cexec_decltmp f sg k t init rest :
+    cexec (S f) sg (NDeclTmp k t init :: rest) =
+    ccont f rest (match ceval sem augsem info init sg with
+                  | Some v => Some ((tmp_name k, (t, conv t v)) :: sg, [], ONormal) | None => None end).
+  Proof. reflexivity. Qed.
+
   Lemma cexec_break f sg rest : cexec (S f) sg (NBreak :: rest) = Some (sg, [], OBreak).
   Proof. reflexivity. Qed.
 
@@ -387,7 +411,8 @@ Section Mirrors.
           | Some (s1, e1, OBreak) =>
               match cexec f s1 rest with
               | None => None | Some (s2, e2, o) => Some (s2, e1 ++ e2, o) end
-          | Some (s1, e1, ONormal) =>
+          | Some (s1, e1, OReturn) => Some (s1, e1, OReturn)
+          | Some (s1, e1, _) =>
               match cexec f s1 (NWhile c body :: rest) with
               | None => None | Some (s2, e2, o) => Some (s2, e1 ++ e2, o) end
           end
@@ -399,9 +424,15 @@ Section Mirrors.
     cexec (S f) sg (NFor x cnt body :: rest) =
     match citer f x cnt body (S f) ((x, (TyInt, VI 0)) :: sg) with
     | None => None
-    | Some (s1, e1) =>
+    | Some (s1, e1, true) => Some (lastn (length sg) s1, e1, OReturn)
+    | Some (s1, e1, false) =>
         match cexec f (lastn (length sg) s1) rest with
         | None => None | Some (s2, e2, o) => Some (s2, e1 ++ e2, o) end
     end.
+  Proof. reflexivity. Qed.
+
+  Lemma cexec_continue f sg rest : cexec (S f) sg (NContinue :: rest) = Some (sg, [], OContinue).
+  Proof. reflexivity. Qed.
+  Lemma cexec_return f sg rest : cexec (S f) sg (NReturn :: rest) = Some (sg, [], OReturn).
   Proof. reflexivity. Qed.
 End Mirrors.
